@@ -235,6 +235,11 @@ func (t *Tokenizer) tokenizeBuffer(buf []byte, last bool) {
 				if digitMap[b] != numDigit {
 					break
 				}
+				if gen.BigLimit < t.num.I {
+					t.num.FillBig()
+					t.num.AddDigit(b)
+					break
+				}
 				t.num.I = t.num.I*10 + uint64(b-'0')
 				if math.MaxInt64 < t.num.I {
 					t.num.FillBig()
@@ -335,7 +340,7 @@ func (t *Tokenizer) tokenizeBuffer(buf []byte, last bool) {
 				}
 				t.num.Frac = t.num.Frac*10 + uint64(b-'0')
 				t.num.Div *= 10.0
-				if math.MaxInt64 < t.num.Frac {
+				if gen.BigLimit <= t.num.Div {
 					t.num.FillBig()
 					break
 				}
